@@ -28,13 +28,20 @@ use serde_json::json;
 use vcore::resp::{decode_stream, show_argv, Argv, Reply};
 use vcore::{CaseCtx, Level, Session};
 
-const KF_DROP: &str = "KF-C04-01";
-const KF_HUGE: &str = "KF-C04-02";
-const KF_SCAN: &str = "KF-C04-03";
-const KF_EVAL: &str = "KF-C04-04";
-const KF_CRLF: &str = "KF-C04-05";
-const KF_LENIENT: &str = "KF-C04-06";
-const KF_EMPTY_NAME: &str = "KF-C04-07";
+// Open findings (listed in known_findings.d/C04.json, each with a probe below).
+const KF_SCAN: &str = "KF-C04-01";
+const KF_EVAL: &str = "KF-C04-02";
+const KF_CRLF: &str = "KF-C04-03";
+const KF_EMPTY_NAME: &str = "KF-C04-04";
+// Latent defects of the GET/SET fast path and the batch collectors. They are NOT listed and
+// suppress nothing: in the current tree those code paths never engage (their HEADER_LEN is
+// 14 but `*2\r\n$3\r\nGET\r\n` is 13 bytes long, so the byte they test for '$' is the first
+// digit of the key length and every GET/SET falls back to the generic parser). The matchers
+// only make the violation message precise should the recognisers ever come alive (their
+// probes then report a VIOLATION because the ids are not listed).
+const KF_DROP: &str = "KF-C04-L1";
+const KF_HUGE: &str = "KF-C04-L2";
+const KF_LENIENT: &str = "KF-C04-L3";
 
 fn budget(ncmds: usize, nreads: usize) -> usize {
     4000 + 200 * (ncmds + nreads)
@@ -324,7 +331,7 @@ fn run_and_compare(
             split_inside,
         });
     }
-    // Known finding KF-C04-01: the collectors consume a run of GETs/SETs shorter than
+    // Latent defect KF-C04-L1 (see the constants): the collectors consume a run of GETs/SETs shorter than
     // batch_threshold without executing it. Recognised only if the output is exactly what a
     // server produces for the stream *without precisely the commands the collector model says
     // are consumed* (re-synchronised expectation from a fresh reference run).
@@ -433,13 +440,13 @@ fn check_stream(case: &StreamCase, ctx: &mut CaseCtx<'_>) -> Result<(), String> 
 
     for r in [&ra, &rb] {
         if r.model.engaged {
-            ctx.label("collector_engaged");
+            ctx.label("model:collector_would_engage");
         }
         if r.model.batched {
-            ctx.label("batch_executed");
+            ctx.label("model:batch_would_execute");
         }
         if !r.dropped.is_empty() {
-            ctx.label("kf01_drop_resynced");
+            ctx.label("latentL1_drop_resynced");
         }
     }
     let nt1 = cmds.len() >= 3 && (ra.split_inside || rb.split_inside);
@@ -515,7 +522,7 @@ fn check_bad(case: &BadCase, ctx: &mut CaseCtx<'_>) -> Result<(), String> {
     );
     let huge = matches!(case.bad, Bad::Huge(_) | Bad::HugeMid(_)) && fast_line;
 
-    // expected replies of the commands before the damage (with KF-C04-01 re-synchronisation)
+    // expected replies of the commands before the damage (with KF-C04-L1 re-synchronisation, inert unless listed)
     let mut kinds: Vec<FrameKind> = case.before.iter().map(frame_kind).collect();
     kinds.push(FrameKind::Stop);
     kinds.extend(case.after.iter().map(frame_kind));
@@ -572,7 +579,7 @@ fn check_bad(case: &BadCase, ctx: &mut CaseCtx<'_>) -> Result<(), String> {
         }
     };
     if prefix_len == usize::MAX {
-        // KF-C04-06 changes which commands the collectors see: checked below before failing
+        // KF-C04-L3 changes which commands the collectors see: checked below before failing
         if let Some(()) = lenient_outcome(case, &st, &reads, p, fast_line, shards, &replies, ctx)? {
             return Ok(());
         }
@@ -596,9 +603,9 @@ fn check_bad(case: &BadCase, ctx: &mut CaseCtx<'_>) -> Result<(), String> {
         None => {
             // silence: nothing at all is written for the malformed frame or anything after it
             if matches!(case.bad, Bad::CrNoLf(_)) && ctx.tolerate(KF_CRLF) {
-                ctx.label("kf05_silence");
+                ctx.label("kf03_silence");
             } else if huge && ctx.tolerate(KF_HUGE) {
-                ctx.label("kf02_silence");
+                ctx.label("latentL2_silence");
             } else {
                 return Err(format!(
                     "{}: silence — no reply at all follows the replies to the {} earlier commands (the malformed frame and everything after it are never answered)",
@@ -624,7 +631,7 @@ fn check_bad(case: &BadCase, ctx: &mut CaseCtx<'_>) -> Result<(), String> {
     Ok(())
 }
 
-/// KF-C04-06: the fast-path recognisers / collectors accept a `$len` line whose CR is not
+/// KF-C04-L3 (latent): the fast-path recognisers / collectors accept a `$len` line whose CR is not
 /// followed by LF and execute the command. Recognised only if the whole output equals what a
 /// server answers to the stream with the undamaged base command in place of the damaged one.
 #[allow(clippy::too_many_arguments)]
@@ -667,7 +674,7 @@ fn lenient_outcome(
                 ctx.tolerate(KF_DROP);
             }
             if ctx.tolerate(KF_LENIENT) {
-                ctx.label("kf06_lenient_accept");
+                ctx.label("latentL3_lenient_accept");
                 return Ok(Some(()));
             }
         }
@@ -786,33 +793,36 @@ fn main() {
     s.assume("commands with wall-clock dependent replies (expiry family), SPOP/RANDOMKEY and non-UTF-8 keys are not generated");
 
     // ---- probes -------------------------------------------------------------------------
+    // latent defects (not listed): these probes report a VIOLATION if the symptom appears
     s.probe(
         KF_DROP,
         json!({"cmds": [["GET","k0"],["INCR","k1"]], "min_pipeline_buffer": 14, "batch_threshold": 2, "segmentation": "whole"}),
         || {
-            let case = StreamCase {
-                cmds: vec![argv(&["GET", "k0"]), argv(&["INCR", "k1"])],
-                shards: 1,
-                a: whole(Cfg { min_pipeline_buffer: 14, batch_threshold: 2, read_buffer_size: 8192 }),
-                b: whole(Cfg::reference()),
-            };
-            s.strict_eval(|ctx| check_stream(&case, ctx)).err()
+            let st = Stream::from_cmds(&[argv(&["GET", "k0"]), argv(&["INCR", "k1"])]);
+            let cfg = Cfg { min_pipeline_buffer: 14, batch_threshold: 2, read_buffer_size: 8192 };
+            let r = run_handler(vec![st.bytes.clone()], &cfg, 1, Io::default(), 10_000);
+            match decode_stream(&r.out) {
+                Ok(v) if v.len() == 2 && r.panic.is_none() && r.finished => None,
+                other => Some(format!(
+                    "GET k0 | INCR k1 in one read with min_pipeline_buffer=14, batch_threshold=2: output {:?} ({:?}); the GET collector consumed the GET without executing it",
+                    vcore::show(&r.out),
+                    other.map(|v| v.len()).map_err(|e| e.2)
+                )),
+            }
         },
     );
     s.probe(
         KF_HUGE,
         json!({"stream": "*2\\r\\n$3\\r\\nGET\\r\\n$18446744073709551615\\r\\nk0\\r\\n"}),
         || {
-            let case = BadCase {
-                before: vec![argv(&["PING"])],
-                after: vec![],
-                base: argv(&["GET", "k0"]),
-                line: 0xffff,
-                bad: Bad::Huge(0),
-                shards: 1,
-                run: whole(Cfg::reference()),
-            };
-            s.strict_eval(|ctx| check_bad(&case, ctx)).err()
+            let bytes = b"*2\r\n$3\r\nGET\r\n$18446744073709551615\r\nk0\r\n".to_vec();
+            let r = run_handler(vec![bytes], &Cfg::reference(), 1, Io::default(), 10_000);
+            let first_is_error = decode_stream(&r.out).ok().and_then(|v| v.first().map(|x| x.is_error())).unwrap_or(false);
+            if r.panic.is_none() && r.finished && first_is_error {
+                None
+            } else {
+                Some(format!("GET with key length 18446744073709551615: panic={:?} output {:?}", r.panic, vcore::show(&r.out)))
+            }
         },
     );
     s.probe(KF_SCAN, json!({"cmds": [["SCAN", "0", "MATCH"]]}), || {
@@ -845,17 +855,18 @@ fn main() {
         };
         s.strict_eval(|ctx| check_bad(&case, ctx)).err()
     });
-    s.probe(KF_LENIENT, json!({"stream": "*2\\r\\n$3\\r\\nGET\\r\\n$2\\rXk0\\r\\n"}), || {
-        let case = BadCase {
-            before: vec![argv(&["SET", "k0", "v"])],
-            after: vec![argv(&["PING"])],
-            base: argv(&["GET", "k0"]),
-            line: 0xffff,
-            bad: Bad::CrNoLf(b'X'),
-            shards: 1,
-            run: whole(Cfg::reference()),
-        };
-        s.strict_eval(|ctx| check_bad(&case, ctx)).err()
+    s.probe(KF_LENIENT, json!({"stream": "SET k0 v | *2\\r\\n$3\\r\\nGET\\r\\n$2\\rXk0\\r\\n | PING"}), || {
+        let mut bytes = vcore::resp::encode_command(&argv(&["SET", "k0", "v"]));
+        bytes.extend_from_slice(b"*2\r\n$3\r\nGET\r\n$2\rXk0\r\n");
+        bytes.extend_from_slice(&vcore::resp::encode_command(&argv(&["PING"])));
+        let r = run_handler(vec![bytes], &Cfg::reference(), 1, Io::default(), 10_000);
+        match decode_stream(&r.out) {
+            Ok(v) if v.len() == 3 && v[1] == Reply::bulk("v") => Some(format!(
+                "the GET whose key-length line ends in CR X instead of CR LF was executed: output {:?}",
+                vcore::show(&r.out)
+            )),
+            _ => None,
+        }
     });
     s.probe(KF_EMPTY_NAME, json!({"stream": "*1\\r\\n$0\\r\\n\\r\\n"}), || {
         let case = StreamCase {
@@ -872,16 +883,16 @@ fn main() {
         "streams",
         "well-formed command streams x two (segmentation, config) runs vs the one-command-per-read reference: reply count, reply sequence, byte identity of the two runs",
     );
-    s.run_cases("streams", s.scale(3_000, 100_000), || stream_case(false), check_stream);
+    s.run_cases("streams", s.scale(100_000, 3_000_000), || stream_case(false), check_stream);
     s.describe_check(
         "streams_with_triggers",
         "the same with commands that trip open crash findings mixed in (excluded and counted while those are open; ordinary streams once they are fixed)",
     );
-    s.run_cases("streams_with_triggers", s.scale(300, 6_000), || stream_case(true), check_stream);
+    s.run_cases("streams_with_triggers", s.scale(5_000, 100_000), || stream_case(true), check_stream);
     s.describe_check(
         "malformed",
         "a stream with one damaged frame: handler returns at EOF, no panic, earlier replies unchanged, the next reply is an error",
     );
-    s.run_cases("malformed", s.scale(2_500, 80_000), bad_case, check_bad);
+    s.run_cases("malformed", s.scale(60_000, 2_000_000), bad_case, check_bad);
     s.finish();
 }
